@@ -35,7 +35,9 @@ func RunConn(server *redis.Server, conn *seq.Conn) (out Outcome) {
 	vrt.ResetTicks()
 	inner := conn.OnRead
 	conn.OnRead = func(delivered int, starving bool) {
-		vrt.ResetTicks()
+		if !starving {
+			vrt.ResetTicks()
+		}
 		if inner != nil {
 			inner(delivered, starving)
 		}
